@@ -22,4 +22,13 @@ cd "$vh/harness" || exit 2
 if ! CARGO_NET_OFFLINE=true cargo build --offline --bin "$bin" >"$vh/build.log" 2>&1; then
 	echo "MACHINERY-ERROR build failed (see $vh/build.log)" >&2; tail -30 "$vh/build.log" >&2; exit 2
 fi
-VERIF_OUT="$vh/out" VERIF_REPO="$wt" RUST_BACKTRACE=0 RUST_LIB_BACKTRACE=0 exec "$vh/target/debug/$bin" "$@"
+export VERIF_OUT="$vh/out" VERIF_REPO="$wt" RUST_BACKTRACE=0 RUST_LIB_BACKTRACE=0
+"$vh/target/debug/$bin" "$@"
+rc=$?
+if [ $rc -ge 128 ]; then
+	echo "MACHINERY-NOTE check process ended with status $rc; retrying with 2 runner threads" >&2
+	VERIF_WORKERS=2 "$vh/target/debug/$bin" "$@"
+	rc=$?
+fi
+[ $rc -ge 128 ] && rc=2
+exit $rc
